@@ -142,6 +142,8 @@ def _index_exprs(rng, L, negstep=True):
     if negstep:  # torch tensors refuse negative steps (PyTorch limitation, not a property of the port)
         out += [("slice", slice(None, None, -1)), ("slice", slice(b, a, -1))]
     out.append(("mask", rng.integers(0, 2, L).astype(bool)))
+    out.append(("mask", rng.integers(0, 2, L).astype(bool).tolist()))     # a plain python list of bools is a mask too
+    out.append(("array", [int(x) for x in rng.integers(0, L, 3)]))
     out.append(("array", rng.integers(0, L, int(rng.integers(0, L + 3)))))
     out.append(("array", rng.permutation(L)))
     return out
@@ -150,6 +152,15 @@ def _index_exprs(rng, L, negstep=True):
 def run_rand(shard, rec, B):
     lib = B.paulialg
     rng = gen.rng_for(rec)
+    for N in (1, 3):    # a zero-length list is a list of length zero
+        E = B.PauliList(np.zeros((0, 2 * N), dtype=np.int64), np.zeros(0, dtype=np.int64))
+        ok, R = rec.attempt("empty.list", N, lambda: (len(E), E.L, E.N, B.np(E.tokenize()).shape, B.np(E.weight()).shape, repr(E), B.gsps(-E)[1].shape, B.gsps(E[0:0])[0].shape))
+        if ok:
+            rec.check("empty.list", R == (0, 0, N, (0, N + 1), (0,), "", (0,), (0, 2 * N)), ["empty", N], False, observed=repr(R))
+    ok, Q = rec.attempt("parse.list.tuple", "tuple", lambda: lib.paulis(("XYZ", "-ZZI", "iIII")))
+    if ok:
+        qg, qp = B.gsps(Q)
+        rec.check("parse.list.tuple", np.array_equal(qg, np.stack([O.s2g("XYZ"), O.s2g("ZZI"), O.s2g("III")])) and list(qp) == [0, 2, 1], "tuple", True)
     for t in range(shard["n"]):
         N = int(rng.integers(1, 13))
         L = int(rng.integers(1, 21))
@@ -214,7 +225,8 @@ def run_rand(shard, rec, B):
             else:
                 try:
                     qg, qp = B.gsps(R)
-                    eg, ep = gs[ix], ps[ix] % 4
+                    ixn = np.asarray(ix) if isinstance(ix, list) else ix
+                    eg, ep = gs[ixn], ps[ixn] % 4
                     good = qg.shape == eg.shape and np.array_equal(qg, eg) and np.array_equal(qp, ep)
                 except Exception as e:
                     good = False
